@@ -138,11 +138,11 @@ macro_rules! c11_sample_beta {
         vproof! {
             #[kani::unwind(4)]
             fn $name() {
+                let mut rng = SymRng::new(4); // all symbolic inputs are drawn first (replay alignment)
                 // concrete alpha (all <= 0.1 -> stick-breaking): Beta constants fold, only the draws are symbolic
                 let alpha: [$f; 3] = [0.05, 0.02, 0.03];
                 let d = match Dirichlet::<$f>::new(&alpha) { Ok(d) => d, Err(_) => return };
                 // one Cheng-BC trial per Beta sampler (2 words each)
-                let mut rng = SymRng::new(4);
                 // the caller's buffer holds arbitrary old contents: every entry must be overwritten
                 let mut out: [$f; 3] = [<$f>::NAN; 3];
                 d.sample_to_slice(&mut rng, &mut out);
@@ -175,3 +175,55 @@ c11_sample_beta!(c11_sample_beta_f32, f32);
 //@ bounds: alpha = [0.05, 0.02, 0.03]; each Beta accepted at its first trial (4 words); output buffer pre-filled with NaN
 //@ assumes: libm::{log,exp} by contract
 c11_sample_beta!(c11_sample_beta_f64, f64);
+
+// ------------------------------------------------------------------------------------------
+// stick-breaking structure with *free* libm stubs: whatever values ln/exp take, one call of sample_to_slice
+// must overwrite every component of the caller's buffer (C11: sample and sample_to_slice agree; C14: the result
+// does not depend on what earlier calls left in the buffer) and consume two words per accepted Beta trial.
+// exp may return +inf, which makes a Beta variate exactly 1 and the remaining stick exactly 0.
+// ------------------------------------------------------------------------------------------
+fn d_ln() -> f64 { let k: u8 = kani::any(); match k % 3 { 0 => -1.0, 1 => 0.5, _ => 2.0 } }
+fn d_exp() -> f64 { let k: u8 = kani::any(); match k % 3 { 0 => 0.5, 1 => 2.0, _ => f64::INFINITY } }
+fn d_ln64(_x: f64) -> f64 { d_ln() }
+fn d_ln32(_x: f32) -> f32 { d_ln() as f32 }
+fn d_exp64(_x: f64) -> f64 { d_exp() }
+fn d_exp32(_x: f32) -> f32 { d_exp() as f32 }
+
+macro_rules! c11_written {
+    ($name:ident, $f:ty) => {
+        #[kani::proof]
+        #[kani::stub(libm::log, d_ln64)]
+        #[kani::stub(libm::logf, d_ln32)]
+        #[kani::stub(libm::exp, d_exp64)]
+        #[kani::stub(libm::expf, d_exp32)]
+        #[kani::unwind(5)]
+        fn $name() {
+            let mut rng = SymRng::new(4);
+            let alpha: [$f; 3] = [0.05, 0.02, 0.03];
+            let d = match Dirichlet::<$f>::new(&alpha) { Ok(d) => d, Err(_) => return };
+            let mut out: [$f; 3] = [<$f>::NAN; 3];
+            d.sample_to_slice(&mut rng, &mut out);
+            vassert!(out[0] == out[0] && out[1] == out[1] && out[2] == out[2], "Dirichlet::sample_to_slice left a component of the caller's buffer unwritten");
+            vassert!(rng.pos == 4, "Dirichlet(stick-breaking, 3 components): two accepted Beta trials consume 4 words");
+            kani::cover!(out[0] == 1.0, "a Beta variate of exactly 1 (stick used up)");
+            kani::cover!(out[0] < 1.0, "interior");
+            core::mem::forget(d);
+        }
+    };
+}
+//@ id: c11_all_written_f64
+//@ prop: C11
+//@ tier: thorough
+//@ cap: 900
+//@ funcs: DirichletFromBeta::<f64>::sample_to_slice; Beta::<f64>::sample; Dirichlet::new
+//@ bounds: alpha = [0.05, 0.02, 0.03]; every word, both Beta variates accepted at their first trial (4 words); output buffer pre-filled with NaN
+//@ assumes: libm::log/exp replaced by free stubs over {-1, 1/2, 2} resp. {1/2, 2, +inf} (structure only, not values)
+c11_written!(c11_all_written_f64, f64);
+//@ id: c11_all_written_f32
+//@ prop: C11
+//@ tier: quick
+//@ cap: 900
+//@ funcs: DirichletFromBeta::<f32>::sample_to_slice; Beta::<f32>::sample; Dirichlet::new
+//@ bounds: as c11_all_written_f64
+//@ assumes: libm::logf/expf replaced by free stubs
+c11_written!(c11_all_written_f32, f32);
